@@ -98,15 +98,30 @@ static char *hl_strdup(const char *s)
 
 /* ---- fatal diagnostics made observable ---- */
 static const char *fatal_class = "-";
+static const char *cur_text = NULL;      /* the text being parsed by do_create() */
+/* the diagnostic quotes the offending range as `TEXT': that text is what the user typed, byte for byte
+ * (a message that was built by interpreting the user's text as a printf format is "garbled") */
+static int echo_garbled(const char *mesg)
+{
+    const char *b = strchr(mesg, '`'), *e = strrchr(mesg, '\'');
+    size_t n;
+    if (!cur_text || !b || !e || e <= b || strlen(mesg) >= 1000)
+        return 0;
+    b++;
+    n = (size_t) (e - b);
+    if (n == 0)
+        return 0;
+    return memmem(cur_text, strlen(cur_text), b, n) == NULL;
+}
 void lsd_fatal_error(char *file, int line, char *mesg)
 {
     (void) file; (void) line;
     if (strcmp(fatal_class, "-") != 0)
         return;
     if (strstr(mesg, "Invalid range"))
-        fatal_class = "invalid";
+        fatal_class = echo_garbled(mesg) ? "invalid-garbled" : "invalid";
     else if (strstr(mesg, "Too many hosts"))
-        fatal_class = "toomany";
+        fatal_class = echo_garbled(mesg) ? "toomany-garbled" : "toomany";
     else
         fatal_class = "other";
 }
@@ -192,7 +207,9 @@ static hostlist_t do_create(const char *expr)
     fatal_class = "-";
     dirty_stack();
     errno = 0;
+    cur_text = expr;
     h = hostlist_create(expr);
+    cur_text = NULL;
     return h;
 }
 
